@@ -12,11 +12,13 @@ class SpecMixin:
     def spec_bool(self, src_or_node, st, names, env=None, old=None, extra=None):
         node = ast.parse(src_or_node.strip(), mode="eval").body if isinstance(src_or_node, str) else src_or_node
         ctx = SpecCtx(st, names, dict(env or {}), old if old is not None else self.entry, extra or {})
+        self._live = st
         return self.sb(node, ctx)
 
     def spec_val(self, src_or_node, st, names, env=None, old=None, extra=None):
         node = ast.parse(src_or_node.strip(), mode="eval").body if isinstance(src_or_node, str) else src_or_node
         ctx = SpecCtx(st, names, dict(env or {}), old if old is not None else self.entry, extra or {})
+        self._live = st
         return self.sv(node, ctx)
 
     # -- as z3 Bool
@@ -362,9 +364,15 @@ class SpecMixin:
     def load_field_pure(self, st, ref_term, field):
         v = z3.Select(st.H(field), Val.r(ref_term))
         ft = self.field_type(field)
+        live = getattr(self, "_live", None)
+        if live is not None:
+            # heap well-formedness: references stored in the heap of state `st` are allocated in `st`
+            live.assume(z3.Implies(smt.is_ref(v), Val.r(v) < st.alloc))
         if ft is None:
             return SV(v)
         ts = TypeSpec(ft)
+        if live is not None:
+            live.assume(self.type_fact(v, ts))
         sv = SV(v, ts.single)
         if ts.elem is not None:
             sv.meta = ("elemtype", ts.elem)
@@ -386,6 +394,9 @@ class SpecMixin:
             i = i + self.list_len(st, base.t)  # only constant negative indices wrap in spec mode
         et = base.meta[1] if base.meta and base.meta[0] == "elemtype" else None
         v = z3.Select(self.list_items(st, base.t), i)
+        live = getattr(self, "_live", None)
+        if live is not None:
+            live.assume(z3.Implies(smt.is_ref(v), Val.r(v) < st.alloc))
         return SV(v, et.single if et else None)
 
     def arith(self, op, a, b):
@@ -432,6 +443,12 @@ class SpecMixin:
                 s = Val.s(self.sv(a[0], ctx).t)
                 lo, hi = Val.i(self.sv(a[1], ctx).t), Val.i(self.sv(a[2], ctx).t)
                 return SV(smt.mk_str(z3.SubString(s, lo, hi - lo)), "str")
+            if fn in ("str", "str_of"):
+                return SV(smt.mk_str(self.str_of(st, self.sv(a[0], ctx))), "str")
+            if fn == "str_join":
+                sep, lst = self.sv(a[0], ctx), self.sv(a[1], ctx)
+                f = self.get_uf("str_join", [smt.StrS, z3.ArraySort(IntS, Val), IntS], smt.StrS)
+                return SV(smt.mk_str(f(Val.s(sep.t), self.list_items(st, lst.t), self.list_len(st, lst.t))), "str")
             if fn == "cls_of":
                 v = self.sv(a[0], ctx)
                 return sv_int(smt.CLS[Val.r(v.t)])
